@@ -429,3 +429,86 @@ Definition equivocating_weight (vs : voterset) (ps : list precommit) : N :=
   fold_right (fun id acc => (if is_equivocator id ms then vs_weight vs id else 0) + acc) 0 (voter_ids ms).
 Definition excess_equivocation (vs : voterset) (ps : list precommit) : bool :=
   vs_total vs - vs_threshold vs <? equivocating_weight vs ps.
+
+(* ---------- third round: Service.VerifyBlockJustification (lib/grandpa/message_handler.go) ----------
+   The entry point of block import: the authority list of the set becomes a voter set with weight 1
+   per entry (a repeated authority is summed); block numbers inside a justification are uint32 while
+   the finalized number is a Go uint.  Mirrors the code after
+   fixes/C19-verify-block-justification-empty-authority-set.patch (NewVoterSet = nil is an error) and
+   fixes/C19-verify-block-justification-number-width.patch (a finalized number beyond 2^32 - 1 is an
+   error); [verify_block_justification_prefix] is the tree before them: `*voters` on nil panics and
+   `uint32(finalizedNumber)` compares modulo 2^32. *)
+Definition two32 : N := 4294967296.
+Inductive boutcome := BNoVoters | BOut (o : joutcome) | BPanic.
+Definition unit_weights (auths : list N) : list (N * N) := map (fun a => (a, 1)) auths.
+
+Definition verify_block_justification (auths : list N) (hs : list hdr) (fhash fnum thash tnum : N)
+  (ps : list precommit) : boutcome :=
+  match new_voter_set (unit_weights auths) with
+  | None => BNoVoters
+  | Some vs =>
+    if two32 <=? fnum then BOut (JErr JTarget)
+    else BOut (verify_finalizes vs hs fhash fnum thash tnum ps)
+  end.
+
+Definition verify_block_justification_prefix (auths : list N) (hs : list hdr) (fhash fnum thash tnum : N)
+  (ps : list precommit) : boutcome :=
+  match new_voter_set (unit_weights auths) with
+  | None => BPanic
+  | Some vs => BOut (verify_finalizes vs hs fhash (fnum mod two32) thash tnum ps)
+  end.
+
+(* ---------- third round: the explicit width of block numbers ----------
+   Block numbers are Go values of an unsigned type of w bits (w = 32 on the block-import path,
+   64 in the generic tests).  The repaired code compares numbers (`<`, `<=`, `==`: the same on
+   equal values at every width) and the vote graph ADDS an offset to the base number to obtain the
+   number of the GHOST (`baseNumber + offset`), which wraps at 2^w.  [validate_commit_w w] is
+   [validate_commit] with that addition done modulo 2^w; inputs are numbers below 2^w. *)
+Definition wrap (w n : N) : N := n mod 2 ^ w.
+
+Definition validate_with_base_w (w : N) (vs : voterset) (hs : list hdr) (thash tnum : N)
+  (all valid_ps : list precommit) (base : precommit) : voutcome :=
+  let n := N.of_nat (length all) in
+  let inv := N.of_nat (length all - length valid_ps) in
+  if negb (forallb (fun p => is_eq_or_desc hs (p_hash base) (p_hash p)) valid_ps)
+  then VOk (mkVR false n 0 0 inv) else
+  let t := import_all valid_ps in
+  match precommit_ghost vs hs (t_votes t) (p_hash base) with
+  | GAmbiguous => VAmbiguous
+  | GNone => VOk (mkVR false n (t_dup t) (t_eqv t) inv)
+  | GBlock g d =>
+    VOk (mkVR ((g =? thash) && (wrap w (p_num base + d) =? tnum)) n (t_dup t) (t_eqv t) inv)
+  end.
+
+Definition validate_commit_w (w : N) (vs : voterset) (hs : list hdr) (thash tnum : N) (ps : list precommit)
+  : voutcome :=
+  let valid_ps := filter (fun p => vs_contains vs (p_id p)) ps in
+  match valid_ps with
+  | [] => VOk (mkVR false (N.of_nat (length ps)) 0 0 (N.of_nat (length ps)))
+  | p0 :: r => validate_with_base_w w vs hs thash tnum ps valid_ps (first_min p0 r)
+  end.
+
+Definition verify_with_voter_set_w (w : N) (vs : voterset) (hs : list hdr) (thash tnum : N)
+  (ps : list precommit) : joutcome :=
+  match validate_commit_w w vs hs thash tnum ps with
+  | VAmbiguous => JAmbiguous
+  | VOk r =>
+    if negb (r_valid r) then JErr JCommit else
+    match ps with
+    | [] => JErr JCommit
+    | p0 :: rest =>
+      let base := p_hash (last_min p0 rest) in
+      match visit hs base ps [] with
+      | inl e => JErr e
+      | inr visited =>
+        let hashes := nodupN (map h_hash hs) in
+        if negb (Nat.eqb (length visited) (length hashes)) then JErr JUnused else
+        if subset visited hashes && subset hashes visited then JOk else JErr JUnused
+      end
+    end
+  end.
+
+Definition verify_finalizes_w (w : N) (vs : voterset) (hs : list hdr) (fhash fnum thash tnum : N)
+  (ps : list precommit) : joutcome :=
+  if negb ((fhash =? thash) && (fnum =? tnum)) then JErr JTarget
+  else verify_with_voter_set_w w vs hs thash tnum ps.
